@@ -14,6 +14,14 @@ def settleN (f : NStep) (fuel : Nat) (s : Nat) : Option (Head Nat Ev) := settle 
 def checkN (f₁ f₂ : NStep) (fuel : Nat) (rel : List (Nat × Nat)) : Bool :=
   check (nlts f₁) (nlts f₂) fuel (rel : List ((nlts f₁).σ × (nlts f₂).σ))
 
+/-- the state at which the next observable step happens (following at most `fuel` silent steps) -/
+def settlePos (f : NStep) : Nat → Nat → Option Nat
+  | 0, _ => none
+  | fuel+1, s =>
+    match f s with
+    | .silent s' => settlePos f fuel s'
+    | _ => some s
+
 inductive Outcome where
   | ok (rel : List (Nat × Nat))
   | differ (path : List Bool) (why : String)
